@@ -11,7 +11,11 @@ pub enum Ev {
     O(u32, u32, Option<u32>, Option<bool>, bool, u32),
     /// nii iw noi ow
     F(Option<u32>, u32, u32, u32),
+    /// a flow that also carries link state for the attached sending link: nii iw noi ow | dc credit drain echo
+    FL(Option<u32>, u32, u32, u32, Option<u32>, Option<u32>, bool, bool),
     X,
+    /// an incoming transfer for the receiving link after the application has dropped its end of it
+    XD,
 }
 
 #[derive(Clone, Debug)]
@@ -41,7 +45,11 @@ impl Case {
                     pay
                 ),
                 Ev::F(nii, iw, noi, ow) => format!("F {} {} {} {}", opt_u32(*nii), iw, noi, ow),
+                Ev::FL(nii, iw, noi, ow, dc, cr, drain, echo) => {
+                    format!("FL {} {} {} {} {} {} {} {}", opt_u32(*nii), iw, noi, ow, opt_u32(*dc), opt_u32(*cr), b(*drain), b(*echo))
+                }
                 Ev::X => "X".to_string(),
+                Ev::XD => "XD".to_string(),
             })
             .collect();
         format!(
@@ -83,7 +91,18 @@ impl Case {
                     noi.parse().ok()?,
                     ow.parse().ok()?,
                 )),
+                ["FL", nii, iw, noi, ow, dc, cr, drain, echo] => evs.push(Ev::FL(
+                    parse_opt_u32(nii),
+                    iw.parse().ok()?,
+                    noi.parse().ok()?,
+                    ow.parse().ok()?,
+                    parse_opt_u32(dc),
+                    parse_opt_u32(cr),
+                    *drain == "1",
+                    *echo == "1",
+                )),
                 ["X"] => evs.push(Ev::X),
+                ["XD"] => evs.push(Ev::XD),
                 _ => return None,
             }
         }
@@ -100,6 +119,7 @@ impl Case {
 }
 
 const PEER_HANDLE: u32 = 7;
+const PEER_SND_HANDLE: u32 = 9;
 
 fn frame_str(f: &VFrame) -> String {
     match f {
@@ -131,13 +151,23 @@ fn frame_str(f: &VFrame) -> String {
             incoming_window,
             next_outgoing_id,
             outgoing_window,
+            handle,
+            delivery_count,
+            link_credit,
+            available,
+            drain,
+            echo,
             ..
         } => format!(
-            "W {} {} {} {}",
+            "W {} {} {} {}{}",
             opt_u32(*next_incoming_id),
             incoming_window,
             next_outgoing_id,
-            outgoing_window
+            outgoing_window,
+            match handle {
+                Some(_) => format!(" L {} {} {} {} {}", opt_u32(*delivery_count), opt_u32(*link_credit), opt_u32(*available), b(*drain), b(*echo)),
+                None => String::new(),
+            }
         ),
         other => format!("? {:?}", other),
     }
@@ -152,6 +182,9 @@ pub fn run_case(c: &Case) -> (String, Vec<String>) {
     // a receiver link attached under the peer's handle so that incoming transfers are routed
     let _h = s.allocate_receiver_link("r", false).unwrap();
     s.on_incoming_attach("r", PEER_HANDLE, false, false).unwrap();
+    // ... and a sending link (the peer's receiving end under PEER_SND_HANDLE) for flows that carry link state
+    let _hs = s.allocate_sender_link("s").unwrap();
+    s.on_incoming_attach("s", PEER_SND_HANDLE, true, false).unwrap();
 
     // ---- direct oracle state (specification side, independent of the model) ----
     let mut adv_base = c.noi; // the peer's implicit next-incoming-id after begin
@@ -181,6 +214,34 @@ pub fn run_case(c: &Case) -> (String, Vec<String>) {
                 adv_win = *iw;
                 peer_noi = *noi;
                 s.on_incoming_flow(*nii, *iw, *noi, *ow, None).unwrap()
+            }
+            Ev::FL(nii, iw, noi, ow, dc, cr, drain, echo) => {
+                adv_base = nii.unwrap_or(c.noi);
+                adv_win = *iw;
+                peer_noi = *noi;
+                let out = s
+                    .on_incoming_flow(
+                        *nii,
+                        *iw,
+                        *noi,
+                        *ow,
+                        Some(fe2o3_amqp::verif::VLinkFlow { handle: PEER_SND_HANDLE, delivery_count: *dc, link_credit: *cr, available: None, drain: *drain, echo: *echo }),
+                    )
+                    .unwrap();
+                // a flow that asks for the link's state (echo), or for a drain, is answered with a flow for that link -
+                // whatever else the same flow sets free
+                if (*echo || *drain) && !out.iter().any(|f| matches!(f, VFrame::Flow { handle: Some(_), .. })) {
+                    viol.push(format!("link-flow-unanswered: a flow with echo={} drain={} for the sending link got no link flow back", echo, drain));
+                }
+                out
+            }
+            Ev::XD => {
+                // the frame is discarded, but it has been received: the session's counters move all the same
+                s.drop_receiver_endpoint(_h);
+                peer_noi = peer_noi.wrapping_add(1);
+                s.on_incoming_transfer(PEER_HANDLE, Some(0), Some(vec![0]), Some(true), false, vec![])
+                    .unwrap();
+                s.maybe_outgoing_session_flow()
             }
             Ev::X => {
                 peer_noi = peer_noi.wrapping_add(1);
@@ -324,9 +385,15 @@ pub fn gen_case(r: &mut Rng, max_len: u64) -> Case {
                         Some(noi.wrapping_add(sent_est).wrapping_sub(back))
                     }
                 };
-                evs.push(Ev::F(nii, small_win(r), near_wrap(r), *r.pick(&[0u32, 1, 7, 5000])));
+                if r.below(4) == 0 {
+                    let dc = match r.below(3) { 0 => None, _ => Some(r.below(4) as u32) };
+                    let cr = match r.below(4) { 0 => None, _ => Some(r.below(6) as u32) };
+                    evs.push(Ev::FL(nii, small_win(r), near_wrap(r), *r.pick(&[0u32, 1, 7, 5000]), dc, cr, r.below(3) == 0, r.below(2) == 0));
+                } else {
+                    evs.push(Ev::F(nii, small_win(r), near_wrap(r), *r.pick(&[0u32, 1, 7, 5000])));
+                }
             }
-            _ => evs.push(Ev::X),
+            _ => evs.push(if r.below(5) == 0 { Ev::XD } else { Ev::X }),
         }
     }
     Case {
@@ -389,7 +456,9 @@ pub fn run(seed: u64, n: u64, thorough: bool, corpus: &[String], dir: &str) {
                 Ev::O(..) => out.count("ev_out_transfer"),
                 Ev::F(None, ..) => out.count("ev_flow_unset_nii"),
                 Ev::F(..) => out.count("ev_flow"),
+                Ev::FL(..) => out.count("ev_flow_with_link_state"),
                 Ev::X => out.count("ev_in_transfer"),
+                Ev::XD => out.count("ev_in_transfer_for_dropped_endpoint"),
             }
         }
         if c.noi > u32::MAX - 300 || c.noi < 300 {
@@ -406,7 +475,12 @@ pub fn run(seed: u64, n: u64, thorough: bool, corpus: &[String], dir: &str) {
         }
         for v in viol {
             let class = v.split(':').next().unwrap_or("?").to_string();
-            let class = if class == "delivery-id" { "c11-delivery-id".to_string() } else { format!("c07-{}", class) };
+            let class = match class.as_str() {
+                "delivery-id" => "c11-delivery-id".to_string(),
+                // the answer to a drain / echo request is the sending link's business (C08), although the session writes it
+                "link-flow-unanswered" => "c08-link-flow-unanswered".to_string(),
+                _ => format!("c07-{}", class),
+            };
             out.violation(&class, &v, &line);
         }
         out.case(&line, &trace);
